@@ -202,6 +202,10 @@ def _front_end(shape, n1, p1, pay, n2):
     check(b"a2 NOOP" in msgs and b"a3 LOGOUT" in msgs, "C19/front_end/later_command_dropped", stream=repr(stream), delivered=repr(msgs))
     check(msgs == exp_msgs, "C19/front_end/delivered_commands_differ_from_stream", stream=repr(stream), delivered=repr(msgs), expected=repr(exp_msgs))
     check(conts == exp_conts, "C19/front_end/continuation_requests_differ", stream=repr(stream), got=conts, expected=exp_conts)
+    # both halves under the same limit: whatever the front end accepted and relayed reaches the command processor
+    # of the user process (its de-framing loop has a size check of its own)
+    st2, seen = _through_ipc(msgs, limit)
+    check(st2 == "ok" and seen == [m.decode("latin-1") for m in msgs], "C19/front_end/accepted_command_dropped_by_user_process", stream=repr(stream), relayed=repr(msgs), reached_processor=repr(seen), limit=limit)
     check((bads >= 1) == (exp_refused >= 1), "C19/front_end/refusal_not_signalled_with_bad", stream=repr(stream), bads=bads, refused=exp_refused)
 
 
@@ -213,13 +217,14 @@ def ipc_roundtrip(ln: int, a: int, b: int, c: int) -> bool:
     return held(_ipc_roundtrip, core.concrete(locals()))
 
 
-def _ipc_roundtrip(ln, a, b, c):
-    """message() framing on the front-end side is undone exactly by IMAPClientProxy.run."""
+def _through_ipc(messages, limit=None):
+    """The real front-end framing (IMAPSubprocessInterface.message) followed by the real de-framing loop of the
+    user process (IMAPClientProxy.run); returns (loop status, command texts handed to the command processor)."""
+    import logging
+
     import asimap.server as S
     import asimap.user_server as U
 
-    m1 = b"t1 LOGIN {3}\r\n" + b"".join(PAY[x] for x in (a, b, c)[:ln])
-    m2 = b"t2 NOOP"
     intf = S.IMAPSubprocessInterface.__new__(S.IMAPSubprocessInterface)
     wr = FakeWriter()
     intf.writer = wr
@@ -228,21 +233,18 @@ def _ipc_roundtrip(ln, a, b, c):
         state = "authenticated"
 
     intf.client_handler = _H()
-    run(intf.message(m1))
-    run(intf.message(m2))
-    got = []
+    for m in messages:
+        run(intf.message(m))
 
     class _Proc:
         idling = False
         state = "authenticated"
 
         async def command(self, cmd):
-            got.append(cmd)
+            pass
 
     U.asimap.trace.TRACE_ENABLED = False
     px = U.IMAPClientProxy.__new__(U.IMAPClientProxy)
-    import logging
-
     px.log = logging.getLogger("x")
     px.client_num = 1
     px.name = "p"
@@ -261,6 +263,7 @@ def _ipc_roundtrip(ln, a, b, c):
     px.client_connected = False
     seen_text = []
     orig = U.IMAPClientCommand
+    orig_limit = U.MAX_INPUT_SIZE
 
     class _Rec(orig):
         def __init__(self, text):
@@ -268,11 +271,22 @@ def _ipc_roundtrip(ln, a, b, c):
             super().__init__(text)
 
     U.IMAPClientCommand = _Rec
+    if limit is not None:
+        U.MAX_INPUT_SIZE = limit
     try:
         loop = SimLoop()
         st, t = loop.run_coro(px.run(), max_time=100.0)
     finally:
         U.IMAPClientCommand = orig
+        U.MAX_INPUT_SIZE = orig_limit
+    return st, seen_text
+
+
+def _ipc_roundtrip(ln, a, b, c):
+    """message() framing on the front-end side is undone exactly by IMAPClientProxy.run."""
+    m1 = b"t1 LOGIN {3}\r\n" + b"".join(PAY[x] for x in (a, b, c)[:ln])
+    m2 = b"t2 NOOP"
+    st, seen_text = _through_ipc([m1, m2])
     reached()
     check(st == "ok", "C19/ipc_roundtrip/proxy_did_not_finish", status=st)
     check(seen_text == [m1.decode("latin-1"), m2.decode("latin-1")], "C19/ipc_roundtrip/deframed_commands_differ", sent=[repr(m1), repr(m2)], got=repr(seen_text))
